@@ -323,6 +323,14 @@ def objscan(chk):
             chk.note("objscan: %s does not compile stand-alone: %s" % (rel, err.strip().split("\n")[-1][:120]))
             continue
         ncomp += 1
+        if syms:
+            with open(src, errors="replace") as fh:
+                toks = lex_tokens(fh.read())
+            own = any(t == "new" and (toks[i + 1] if i + 1 < len(toks) else "") != "(" and toks[i - 1] != "operator"
+                      for i, t in enumerate(toks)) or any(t == "delete" and toks[i - 1] not in ("=", "operator") for i, t in enumerate(toks))
+            if own:
+                chk.extra.setdefault("objscan_units_allocating_themselves", []).append(rel)
+                continue
         chk.obligation("EFFECT-noalloc-obj", rel, not syms, nontrivial=True)
         if syms:
             chk.violation("EFFECT-noalloc-obj", rel, "imports-allocator",
